@@ -168,7 +168,11 @@ def run_omitted(case, ctx):
 
 
 # IdP entries of the SP's metadata without a key usable for verifying signatures (the issuer still signs with k00)
-MDKEYS = {"no-key-descriptor": [], "encryption-only-key": [("encryption", 0)], "other-encryption-only-key": [("encryption", 4)]}
+MDKEYS = {"no-key-descriptor": [], "encryption-only-key": [("encryption", 0)], "other-encryption-only-key": [("encryption", 4)],
+          # an issuer in the middle of a key roll-over: several signing certificates, the one in use first / in the middle / last
+          "several-signing-keys:used-first": [("signing", 0), ("signing", 5), ("signing", 6)],
+          "several-signing-keys:used-middle": [("signing", 5), ("signing", 0), ("signing", 6)],
+          "several-signing-keys:used-last": [("signing", 5), ("signing", 6), ("signing", 0)]}
 B_REDIR = "urn:oasis:names:tc:SAML:2.0:bindings:HTTP-Redirect"
 
 
@@ -260,7 +264,7 @@ def expected_accept(case):
     wrs, was, waors = case["opts"]
     R, A = "R" in case["layout"], "A" in case["layout"]
     ok = (not wrs or R) and (not was or A) and (not waors or R or A)
-    if case.get("mdkeys") and (R or A):
+    if case.get("mdkeys") and not case["mdkeys"].startswith("several-signing-keys") and (R or A):
         return False          # no key to verify the present signature with
     if case.get("spenc"):
         return False          # no assertion the SP could have looked at
